@@ -438,6 +438,15 @@ pub fn run(ctx: &Ctx) -> i32 {
     let mut ms = MStats::default();
     mle_register_pairs(ctx, &mut ms);
     mle_real_sketches(ctx, &mut ms);
+    {
+        let a: Vec<u16> = vec![110, 100, 100];
+        let b: Vec<u16> = vec![110, 110, 100];
+        let o = run_mle::<u16>(1.2, 20., &a, &b);
+        ctx.sample(json!({"mle": {"b": 1.2, "registers_1": a, "registers_2": b, "collision_fraction": o.jac, "bracket_upper": o.b_sup, "result": format!("{:?}", o.res)}}));
+        let x = vec![0.25f64, f64::from_bits(0.25f64.to_bits() + 1), 1.5];
+        let y = vec![0.25f64, 0.25, 1.5];
+        ctx.sample(json!({"counting": {"fn": "superminhasher::compute_superminhash_jaccard<f64>", "a": x, "b": y, "result": format!("{:?}", superminhasher::compute_superminhash_jaccard(&x, &y).ok())}}));
+    }
     println!(
         "C14 counting pairs={} length-mismatch pairs={} distinct values={} | mle calls={} failing={} distinct estimates={}",
         st.pairs,
